@@ -64,7 +64,7 @@ func phaseA(r *ev.Run, rng *rand.Rand) {
 		r.Inconclusive("direct phase: the first update was not stored")
 		return
 	}
-	n := r.Pick(1400, 14000)
+	n := r.Pick(1100, 14000)
 	for i := 0; i < n; i++ {
 		e.threeWays(g.next(s))
 		if i%89 == 88 {
@@ -91,7 +91,7 @@ func phaseA(r *ev.Run, rng *rand.Rand) {
 	timed("list-grid", e.listGrids)
 	timed("single-field", e.fieldGridDirect)
 	timed("get-edit-set", e.getEditSet)
-	timed("concurrent-direct", func() { e.concurrentDirect(g, r.Pick(12, 100)) })
+	timed("concurrent-direct", func() { e.concurrentDirect(g, r.Pick(8, 100)) })
 }
 
 type directedCase struct {
